@@ -137,10 +137,13 @@ def fixedEnv (R : Ro) (s : St) : List (String × Int) :=
    ("v0.Max.Width", (R.W : Int)), ("v0.Max.Height", (R.H : Int)), ("v1.Size.Height", (R.H : Int)),
    ("nil", 0), ("true", 1), ("false", 0)]
 
-def look (R : Ro) (m : M) (n : String) : Option Int := lookup (m.ρ ++ fixedEnv R m.st) n
+def look (R : Ro) (m : M) (n : String) : Option Int := lookup (fixedEnv R m.st ++ m.ρ) n
 
 def toUintI (v : Int) : Int := v % (U : Int)
 def toIntI (v : Int) : Int := if v < 2 ^ 63 then v else v - (U : Int)
+/-- `x + y`, `x - y` on `uint`. -/
+def uaddI (x y : Int) : Int := toUintI (x + y)
+def usubI (x y : Int) : Int := toUintI (x - y)
 
 def isU (us : List String) : Expr → Bool
   | .var n => n == "d.cursor" || n == "d.scroll.top" || us.contains n
@@ -155,10 +158,10 @@ def evI (R : Ro) (m : M) : Expr → Option Int
   | .un "-" a => (evI R m a).map (fun x => - x)
   | .bin "+" a b => do
       let x ← evI R m a; let y ← evI R m b
-      pure (if isU m.us a then toUintI (x + y) else x + y)
+      pure (if isU m.us a then uaddI x y else x + y)
   | .bin "-" a b => do
       let x ← evI R m a; let y ← evI R m b
-      pure (if isU m.us a then toUintI (x - y) else x - y)
+      pure (if isU m.us a then usubI x y else x - y)
   | .bin "*" a b => do let x ← evI R m a; let y ← evI R m b; pure (x * y)
   | .arg (.call (.var "int")) a => (evI R m a).map (fun x => if isU m.us a then toIntI x else x)
   | .arg (.call (.var "uint")) a => (evI R m a).map toUintI
@@ -324,11 +327,11 @@ def atom (R : Ro) (f : Nat) (m : M) (l : Line) : Res :=
     | some v => ok (store m x v)
   | .addAssign, .var x, e =>
     match look R m x, evI R m e with
-    | some cur, some v => ok (store m x (if isU m.us (.var x) then toUintI (cur + v) else cur + v))
+    | some cur, some v => ok (store m x (if isU m.us (.var x) then uaddI cur v else cur + v))
     | _, _ => .error (.stuck "+=")
   | .subAssign, .var x, e =>
     match look R m x, evI R m e with
-    | some cur, some v => ok (store m x (if isU m.us (.var x) then toUintI (cur - v) else cur - v))
+    | some cur, some v => ok (store m x (if isU m.us (.var x) then usubI cur v else cur - v))
     | _, _ => .error (.stuck "-=")
   | _, _, _ => .error (.stuck "statement")
 
